@@ -202,12 +202,23 @@ pub fn scenario(seed: u64, k: u64, out: &Out) {
                 let stored = w.c().storage.get_last_n_headers();
                 let tipn: u64 = w.c().storage.get_tip_header().raw().number().unpack();
                 let main_ci = net.main;
-                let cands: Vec<u64> = stored.iter().map(|(n, _)| *n).filter(|n| *n + 1 < w.chains[main_ci].tip() && *n >= 1).collect();
+                // fork point: one of the headers the client remembers, or (C05's own wording) any depth below last-N - whether
+                // the client still remembers that many headers at this moment (after a restart, after short proofs) is its business
+                let by_depth = rng.chance(1, 2);
+                let cands: Vec<u64> = if by_depth {
+                    let main_tip = w.chains[main_ci].tip();
+                    (1..ccfg.last_n as u64).filter(|d| *d + 1 <= main_tip.saturating_sub(1)).map(|d| main_tip - d).filter(|n| *n >= 1 && *n + 1 < main_tip).collect()
+                } else {
+                    stored.iter().map(|(n, _)| *n).filter(|n| *n + 1 < w.chains[main_ci].tip() && *n >= 1).collect()
+                };
                 // the switch happens at a quiescent point: no request to the switching peers is outstanding
                 // (the race "answer from the new branch to a request made on the old one" is exercised by C04)
                 let quiet = w.run_until(&mut mon, 30, |w| w.converged_on(main_ci)).is_some();
                 if quiet && ccfg.last_n >= 2 && !cands.is_empty() && w.chains[main_ci].tip() == tipn {
                     phases.push("fork".into());
+                    if by_depth {
+                        phases.push("fork-point-by-depth".into());
+                    }
                     let at = *rng.pick(&cands);
                     let d = tipn - at;
                     // short (no samples needed) or long (reorg section + samples + last-N in one answer)
